@@ -7,12 +7,15 @@ git merge --no-edit "$b" >/tmp/merge.log 2>&1; tail -3 /tmp/merge.log
 python3 - <<'PY'
 import json
 ours = json.load(open('/tmp/kf_ours.json')); theirs = json.load(open('/tmp/kf_theirs.json'))
-ids = {f['id'] for f in ours['findings']}
+ids = {f['id'] for f in ours['findings']} | set(ours.get('retired_ids', []))
 for f in theirs.get('findings', []):
     if f['id'] not in ids:
         ours['findings'].append(f); ids.add(f['id'])
 json.dump(ours, open('KNOWN_FINDINGS.json','w'), indent=1, ensure_ascii=False)
 PY
-for f in MANIFEST.json; do git checkout --ours $f 2>/dev/null; done
+for f in MANIFEST.json DESIGN.md; do git checkout --ours $f 2>/dev/null; done
+for f in $(git diff --name-only --diff-filter=U | grep '^evidence/\|^lean/UralModel/Gen/\|^lean/Main.lean\|^lean/UralModel.lean'); do git checkout --theirs "$f" 2>/dev/null; done
+left=$(grep -rlE '^(<<<<<<<|>>>>>>>) ' --exclude-dir=.git --exclude-dir=.lake --exclude-dir=replays --exclude-dir=build . | grep -v '^./KNOWN_FINDINGS.json' | head)
+if [ -n "$left" ]; then echo "UNRESOLVED CONFLICTS (resolve by hand, then tools/commit.sh):"; echo "$left"; exit 1; fi
 python3 tools/mkmain.py && python3 tools/mkmanifest.py
 git add -A && git commit -qm "merge $b" && git log --oneline | head -1
